@@ -26,7 +26,26 @@ PROP = dict(
          "all double edits of the shortest valid line of each pattern. EQ = Lean model decIn equals the decoded "
          "messages (canonical text incl. nil) / matcher result equals FindStringSubmatch; H1 = effects(decoded messages) "
          "= Spec.readInbound(lines) for sequences in Spec.inDomainLines (others tagged B:outdom: checked for nil message "
-         "/ panic only). (Family c01 additionally runs ein.rt = decoder(encoder(msgs)) on every random message list and "
+         "/ panic only). Scenario classes (after the random stream, every run; x10 in the thorough tier): (a) din.seq = 2-5 calls on "
+         "different batches, the returned message lists kept and printed at return time and again after the last call (a later call "
+         "must not change an earlier result), every fourth as din.par = the calls of even / odd index in two goroutines, 12 repetitions "
+         "each; (b) the same line (group) more than once in one call with commands, registers, blank / "
+         "non-grammar lines, a one-line graphics transfer or a JSON state in between: A X A, A A, A B A, A X A Y A for each of the 19 "
+         "line families, identical complete graphics transfers A B A / A A / A Clear A for one id list in each of the 3 formats; (c) "
+         "every numeric position of every line family (36 templates: ids, packed values, all 17 numeric text fields, graphics index / "
+         "last index / W / H / X / Y, the ten key=num commands, both brightness arguments, register ids and values) re-spelled with 1, "
+         "2, 7 and 25 leading zeros, '+' and '-0' where the position is free-form text, one position at a time (all spellings) and all "
+         "positions at once (random), alone and in batches; a 10-part transfer with re-spelled part indices; digit strings of 30-80 "
+         "characters; canonical values 8, 9, 10, 18, 100, 255 so that an octal / base-prefix reading shows; (g) din.ctx = 29 lines with a "
+         "known keyword and an enumerated value outside its enumeration or an argument that does not parse "
+         "(SimulateEnvironmentalHealth=Weird, HWCrawADCValues#5=2, ActivePanel=0, Webserver=yes ...) alone, directly after each of 12 "
+         "message-producing lines, between two state lines, repeated, and in random batches with well-formed, malformed and non-grammar "
+         "lines: the record carries what the decoder returns for every distinct line alone, H1 = effects(batch) = "
+         "Spec.In.readInboundWith (the grammar's reading of every line it reads, the line's own effects for every outside line, in "
+         "line order; tag B:ctx; batches with a malformed graphics part stay B:outdom); (f) lines of 201-2000 bytes (title, text "
+         "lines, calibration payload, non-grammar line, register id); every record whose input or output carries a byte string longer "
+         "than 200 bytes (and every third other record) is executed a second time with DebugRWPhelpers on. "
+         "(Family c01 additionally runs ein.rt = decoder(encoder(msgs)) on every random message list and "
          "checks C02.roundtrip_in's conclusion on the implementation.)",
     trusted_base=["regexp: replaced by hand-written byte matchers (Model/DecIn.lean) for the six patterns; the pattern sources are "
                   "pinned and their keyword alternations proved equal to the matchers' tables (regex_sources_tie, "
@@ -54,7 +73,14 @@ CLAIM = dict(
          "reassembles that image exactly); dec_sound_nb: unguarded form with the reader's output minus such deliveries; "
          "text_total: decText agrees with the reference reader on every well-formed text value; text_prefixes (all 22 prefixes "
          "of a full text value); simple_vs_advanced_gfx_model/_spec (a header-less part 0 opens the transfer that /2,64x32 "
-         "opens, for every keyword, id list, payload, previous state). For JSON lines ({...}, [...]) reader and decoder "
+         "opens, for every keyword, id list, payload, previous state). "
+         "dec_context_free (+ _nb, line_decoded_alone, ctx_domain_contains_domain): on Spec.inDomainLinesCtx — every line well-formed, "
+         "non-grammar, or OUTSIDE the domain without being a graphics part (an enumerated value outside its enumeration, a malformed "
+         "number ...), transfers in order, same guard — effects(decIn ls) = Spec.readInboundWith: the reader's effects for the lines "
+         "the grammar reads and, for every outside line, exactly the effects of that line decoded alone, in line order (no line "
+         "repeats, drops or alters the message of a neighbour); what the decoder appends for a line not accepted by regex_gfx depends "
+         "on nothing but the line. "
+         "For JSON lines ({...}, [...]) reader and decoder "
          "consult the same encoding/json oracle, so dec_sound says for them only that the parsed state / messages are passed "
          "on unchanged, in place and in order. Round trip (C01 and C02 composed): enc_in_domain and roundtrip_in — for messages of "
          "InDomainIn with the decidable roundtripGuard (FLAG register ids are numerals < 2^32, a calibration payload is stable "
